@@ -44,6 +44,12 @@
 //   pairs with a smaller gap are still executed and judged, under sub-check "offset.pairs_neargap".
 // Overlap between result polygons (two result polygons with
 //   non-zero winding at a sample) is a violation with use_union=true, a counter otherwise.
+// Winding is an explicit input dimension: the region does not depend on the order in which a polygon's
+//   vertices are listed, so every member of a group is also handed to gdstk in reversed order — single shapes
+//   in both windings, pairs in all 4 assignments (sub-check offset.pairs_winding holds the 3 non-identity
+//   ones), partition-family members with k <= 3 polygons in all 2^k assignments (thorough) — under the
+//   unchanged distance oracle, use_union false and true, all relations, both signs, all joins.  Tags
+//   winding ("+-" = first counter-clockwise, second clockwise) and mixed_winding identify the assignment.
 // Union option: members of one partition family (same region, different polygons) are offset with
 //   use_union=true and must agree at every sample farther than g from both results' boundaries, and in
 //   area within (perimeter * 2g).
@@ -68,6 +74,7 @@ struct Shape {
     char kind = 'P';      // 'P' literal lattice polygon, 'K' key-holed ring = boolean(outer, inner, Not)
     eg::Poly pts;         // P: vertices; K: {outer min, outer max, inner min, inner max}
     std::string cls;      // rect / L / tri / ring / poly
+    bool rev = false;     // hand the vertex list to gdstk in reversed order (opposite winding); spec kind in lower case
 };
 static Shape rect(int x0, int y0, int x1, int y1) { return {'P', {{x0, y0}, {x1, y0}, {x1, y1}, {x0, y1}}, "rect"}; }
 // L = bounding box minus a notch of size nw x nh at corner c (0: top-right, 1: top-left, 2: bottom-left, 3: bottom-right)
@@ -94,7 +101,7 @@ static void bbox(const Shape& s, int64_t& x0, int64_t& y0, int64_t& x1, int64_t&
     for (auto& v : s.pts) { x0 = std::min(x0, v.x); x1 = std::max(x1, v.x); y0 = std::min(y0, v.y); y1 = std::max(y1, v.y); }
 }
 static std::string spec_of(const Shape& s) {
-    std::string o = std::string(1, s.kind) + ":";
+    std::string o = std::string(1, s.rev ? (char)tolower(s.kind) : s.kind) + ":";
     for (size_t i = 0; i < s.pts.size(); i++) o += fmt("%s%lld,%lld", i ? ";" : "", (long long)s.pts[i].x, (long long)s.pts[i].y);
     return o;
 }
@@ -111,7 +118,8 @@ static std::vector<Shape> parse_spec(const std::string& spec) {
         if (e == std::string::npos) e = spec.size();
         std::string one = spec.substr(p, e - p);
         Shape s;
-        s.kind = one[0];
+        s.rev = islower((unsigned char)one[0]) != 0;
+        s.kind = (char)toupper((unsigned char)one[0]);
         s.cls = s.kind == 'K' ? "ring" : "poly";
         size_t q = 2;
         while (q < one.size()) {
@@ -137,6 +145,8 @@ struct Group {
     ld gap = INFINITY;              // min distance between two members
     int comps = 1;                  // connected components of the region
     std::vector<std::array<int64_t, 2>> hole2;  // 2 x centre of every ring hole
+    std::string orient;             // winding of every member as handed to gdstk: '+' counter-clockwise, '-' clockwise
+    bool mixed = false;             // members of both windings
     bool ok = true;
     void free_all() {
         for (auto* p : gp) { p->clear(); free_allocation(p); }
@@ -155,8 +165,10 @@ static Group build_group(const std::vector<Shape>& shapes) {
         const Shape& s = shapes[i];
         G.kind += (i ? "+" : "") + s.cls;
         if (s.kind == 'P') {
-            G.lat.push_back(s.pts);
-            G.gp.push_back(make_polygon(s.pts));
+            eg::Poly p = s.pts;
+            if (s.rev) std::reverse(p.begin(), p.end());
+            G.lat.push_back(p);
+            G.gp.push_back(make_polygon(p));
         } else {
             // key-holed ring produced by a prior boolean Not on the real code (scaling 1000)
             Polygon* o = make_polygon({{s.pts[0].x, s.pts[0].y}, {s.pts[1].x, s.pts[0].y}, {s.pts[1].x, s.pts[1].y}, {s.pts[0].x, s.pts[1].y}});
@@ -193,12 +205,21 @@ static Group build_group(const std::vector<Shape>& shapes) {
                         if ((eg::winding(l21, q) != 0) != (in_o && !in_i)) { R->internal_error("key-holed ring does not cover outer minus inner: " + spec_of(s)); G.ok = false; }
                     }
             }
+            if (s.rev) {  // same key-holed vertex list, opposite winding
+                std::reverse(lp.begin(), lp.end());
+                Polygon* rp = (Polygon*)allocate_clear(sizeof(Polygon));
+                for (uint64_t k = res[0]->point_array.count; k-- > 0;) rp->point_array.append(res[0]->point_array[k]);
+                res[0]->clear(); free_allocation(res[0]);
+                res[0] = rp;
+            }
             G.lat.push_back(lp);
             G.gp.push_back(res[0]);
             res.clear();
             G.hole2.push_back({s.pts[2].x + s.pts[3].x, s.pts[2].y + s.pts[3].y});
         }
     }
+    for (auto& p : G.lat) G.orient += eg::area2(p) > 0 ? '+' : '-';
+    G.mixed = G.orient.find('+') != std::string::npos && G.orient.find('-') != std::string::npos;
     G.pc = c13::extract_pieces(G.lat);
     if (G.pc.anomalies) { R->internal_error("edge piece with the region on neither side: " + spec_of(shapes)); G.ok = false; }
     for (size_t i = 0; i < G.lat.size(); i++)
@@ -219,7 +240,7 @@ static std::string group_json(const Group& G) {
         for (auto& v : p) vs.push_back(fmt("[%lld,%lld]", (long long)v.x, (long long)v.y));
         ps.push_back(jarr(vs));
     }
-    return jobj({{"spec", jstr(spec_of(G.shapes))}, {"kind", jstr(G.kind)}, {"relation", jstr(G.rel)}, {"polygons", jarr(ps)}});
+    return jobj({{"spec", jstr(spec_of(G.shapes))}, {"kind", jstr(G.kind)}, {"relation", jstr(G.rel)}, {"winding", jstr(G.orient)}, {"polygons", jarr(ps)}});
 }
 
 // ------------------------------------------------------------------------------------------ configurations
@@ -339,7 +360,7 @@ static int64_t judge(const Group& G, const c13::Field& F, const Cfg& c, const Re
     std::string replay = "sub=" + sub + " spec=" + spec_of(G.shapes) + " " + cfg_str(c) + fmt(" r=%d", F.r);
     JFields tags = {{"sign", jstr(grow ? "pos" : "neg")}, {"join", jstr(J.name)}, {"use_union", jbool(c.uni)},
                     {"scaling", jnum(sc)}, {"relation", jstr(G.rel)}, {"group", jstr(G.kind)},
-                    {"has_internal_edges", jbool(!G.pc.internal.empty())}, {"abs_distance", jnum(r)}};
+                    {"has_internal_edges", jbool(!G.pc.internal.empty())}, {"abs_distance", jnum(r)}, {"winding", jstr(G.orient)}, {"mixed_winding", jbool(G.mixed)}};
     std::string cj = jobj({{"group", group_json(G)}, {"config", cfg_json(c)}, {"refinement", jint(F.r)}});
     int i0, i1, j0, j1;
     window(F, grow ? Rr + 1.5 : 1.0, i0, i1, j0, j1);
@@ -453,6 +474,8 @@ static void run_case(const Group& G, const c13::Field& F, const Cfg& c, const ch
             if (cover_count(res, q, ob) > 0 || ob) { R->count("nt_hole_closed"); nt = true; }
         }
     if (nt) R->count("nontrivial");
+    if (G.mixed) R->count("cases_mixed_winding");
+    else if (G.orient.find('-') != std::string::npos) R->count("cases_all_clockwise");
     R->outcome(sub, fmt("%s|%s|%s|np=%d|ec=%d", G.kind.c_str(), G.rel.c_str(), c.d > 0 ? "+" : "-", np, (int)res.ec));
     if (keep) *keep = std::move(res);
 }
@@ -499,9 +522,9 @@ static std::vector<std::vector<Shape>> singles(const std::string& cls, bool all_
         for (int dx = 0; dx <= (all_positions ? LAT - (int)x1 : 0); dx++)
             for (int dy = 0; dy <= (all_positions ? LAT - (int)y1 : 0); dy++) {
                 out.push_back({translated(s, dx, dy)});
-                if (both_orient && s.kind == 'P') {
+                if (both_orient) {
                     Shape t = translated(s, dx, dy);
-                    std::reverse(t.pts.begin(), t.pts.end());
+                    t.rev = true;
                     out.push_back({t});
                 }
             }
@@ -560,6 +583,17 @@ static std::vector<std::vector<Shape>> pairs(bool thorough) {
     });
     return out;
 }
+// every assignment of windings to the members of a group (2^k, k <= 3); identity (nothing reversed) optional
+static std::vector<std::vector<Shape>> winding_variants(const std::vector<Shape>& g, bool with_identity) {
+    std::vector<std::vector<Shape>> out;
+    if (g.size() > 3) { if (with_identity) out.push_back(g); return out; }
+    for (unsigned m = with_identity ? 0 : 1; m < (1u << g.size()); m++) {
+        std::vector<Shape> v = g;
+        for (size_t i = 0; i < g.size(); i++) v[i].rev = (m >> i) & 1;
+        out.push_back(v);
+    }
+    return out;
+}
 // partition families: every member of a family covers the same region
 static std::vector<std::vector<std::vector<Shape>>> families() {
     std::vector<std::vector<std::vector<Shape>>> F;
@@ -614,9 +648,10 @@ static bool only(const std::string& sub) {  // debugging aid: C13_ONLY=<prefix> 
     const char* e = getenv("C13_ONLY");
     return !e || sub.compare(0, strlen(e), e) == 0;
 }
-static void run_groups(const std::string& sub, const std::string& desc, const std::vector<std::vector<Shape>>& groups, int r) {
+static void run_groups(const std::string& sub, const std::string& desc, const std::vector<std::vector<Shape>>& groups, int r, int only_scaling = -1) {
     if (!only(sub)) return;
-    std::vector<Cfg> cfgs = all_cfgs();
+    std::vector<Cfg> cfgs;
+    for (auto& c : all_cfgs()) if (only_scaling < 0 || c.sc == only_scaling) cfgs.push_back(c);
     double t_start = now();
     auto body = [&](int64_t gi) {
         Group G = build_group(groups[gi]);
@@ -633,9 +668,9 @@ static void run_groups(const std::string& sub, const std::string& desc, const st
         G.free_all();
     };
     bool ok = parallel_for(*R, (int64_t)groups.size(), body,
-                           [&](int64_t gi) { return jobj({{"spec", jstr(spec_of(groups[gi]))}, {"then", jstr("one of the 200 configurations")}}); },
+                           [&](int64_t gi) { return jobj({{"spec", jstr(spec_of(groups[gi]))}, {"then", jstr("one of the configurations")}}); },
                            [&](int64_t gi) { return "sub=" + sub + " spec=" + spec_of(groups[gi]) + fmt(" r=%d all=1", r); }, PFOptions{120, sub, true});
-    R->bound(sub, desc + fmt(" x {+-}{0.2,0.5,1,1.7,3} x {miter2,miter3,bevel,round8,round32} x union{F,T} x scaling{1000,2^20}; samples ((i+1/3)/%d,(j+1/7)/%d)", r, r), ok,
+    R->bound(sub, desc + fmt(" x {+-}{0.2,0.5,1,1.7,3} x {miter2,miter3,bevel,round8,round32} x union{F,T} x scaling%s; samples ((i+1/3)/%d,(j+1/7)/%d)", only_scaling < 0 ? "{1000,2^20}" : only_scaling == 0 ? "{1000}" : "{2^20}", r, r), ok,
              (int64_t)groups.size() * (int64_t)cfgs.size(), {{"groups", jint((int64_t)groups.size())}, {"wall_s", jnum(floor((now() - t_start) * 10) / 10)}});
 }
 
@@ -674,10 +709,16 @@ static void compare_members(const std::vector<Shape>& a, const std::vector<Shape
     }
     (void)GA;
 }
-static void run_families(int r) {
+static void run_families(int r, bool windings) {
     const std::string sub = "offset.union_partition";
     if (!only(sub)) return;
     auto fams = families();
+    if (windings)  // every member (k <= 3 polygons) also in every other winding assignment: same region, must agree
+        for (auto& f : fams) {
+            size_t n0 = f.size();
+            for (size_t m = 0; m < n0; m++)
+                for (auto& v : winding_variants(f[m], false)) f.push_back(v);
+        }
     std::vector<Cfg> cfgs = all_cfgs();
     int64_t members = 0;
     double t_start = now();
@@ -708,8 +749,8 @@ static void run_families(int r) {
     bool ok = parallel_for(*R, (int64_t)fams.size(), body,
                            [&](int64_t fi) { return jobj({{"family_first_member", jstr(spec_of(fams[fi][0]))}}); },
                            [&](int64_t fi) { return "sub=" + sub + " spec=" + spec_of(fams[fi][0]) + fmt(" r=%d all=1", r); }, PFOptions{120, sub, true});
-    R->bound(sub, fmt("%zu partition families (%lld members: rectangles split/covered 2-3 ways, L shapes cut either way or as overlapping arms, plus/T shapes, square as two triangles, ring as key-holed polygon / 4 rectangles / 2 L) x 200 configurations; members compared pairwise with use_union=true; samples refinement %d",
-                      fams.size(), (long long)members, r), ok, members * (int64_t)cfgs.size(), {{"families", jint((int64_t)fams.size())}, {"wall_s", jnum(floor((now() - t_start) * 10) / 10)}});
+    R->bound(sub, fmt("%zu partition families (%lld members%s: rectangles split/covered 2-3 ways, L shapes cut either way or as overlapping arms, plus/T shapes, square as two triangles, ring as key-holed polygon / 4 rectangles / 2 L) x 200 configurations; members compared pairwise with use_union=true; samples refinement %d",
+                      fams.size(), (long long)members, windings ? ", each member with <= 3 polygons in all 2^k winding assignments" : "", r), ok, members * (int64_t)cfgs.size(), {{"families", jint((int64_t)fams.size())}, {"wall_s", jnum(floor((now() - t_start) * 10) / 10)}});
 }
 
 // ------------------------------------------------------------------------------------------ main
@@ -757,15 +798,22 @@ int main(int argc, char** argv) {
     int r1 = T ? 4 : 2;
     // single shapes, smallest first
     run_groups("offset.single.rect", T ? "all 225 lattice rectangles on {0..5}^2, both orientations" : "25 rectangles w,h in 1..5 (one per translation class), both orientations", singles("rect", T, true), r1);
-    run_groups("offset.single.ring", "100 key-holed rings: outer [0,W]x[0,H], W,H in 3..5, every lattice hole with wall >= 1, built by boolean Not", singles("ring", false, false), r1);
-    run_families(r1);
+    run_groups("offset.single.ring", T ? "100 key-holed rings in both windings: outer" : "100 key-holed rings: outer [0,W]x[0,H], W,H in 3..5, every lattice hole with wall >= 1, built by boolean Not", singles("ring", false, T), r1);
+    run_families(r1, T);
     run_groups("offset.single.L", T ? "all 1600 L shapes (every position), both orientations" : "144 L shapes (bounding box 2..4, every notch, 4 corners; one per translation class)", singles("L", T, T, T ? LAT : 4), r1);
     if (T) run_groups("offset.single.tri_fine", "all non-degenerate lattice triangles on {0..5}^2, one per translation class, counter-clockwise, refinement 4", singles("tri", false, false), 4);
     run_groups("offset.single.tri", T ? "all non-degenerate lattice triangles on {0..5}^2 at every position, both orientations" : "all non-degenerate lattice triangles on {0..4}^2, one per translation class, counter-clockwise", singles("tri", T, T, T ? LAT : 4), 2);
     {
         auto P = pairs(T);
-        run_groups("offset.pairs", fmt("%zu pairs (every placement of %zu base shapes on {0..5}^2, unordered, one per translation class: disjoint, touching, overlapping, nested); d<0 without union only for disjoint pairs",
+        // winding as an explicit dimension: every pair in the three other winding assignments (cw/ccw, ccw/cw,
+        // cw/cw); the region, hence the oracle, does not depend on winding.  Scaling 1000 only (winding handling
+        // does not depend on the scaling; the all-counter-clockwise assignment runs at both scalings below).
+        std::vector<std::vector<Shape>> W;
+        for (auto& g : P) for (auto& v : winding_variants(g, false)) W.push_back(v);
+        if (!T) run_groups("offset.pairs_winding", fmt("%zu groups = %zu pairs x 3 non-identity winding assignments of the two members", W.size(), P.size()), W, 2, 0);
+        run_groups("offset.pairs", fmt("%zu pairs (every placement of %zu base shapes on {0..5}^2, unordered, one per translation class: disjoint, touching, overlapping, nested), both counter-clockwise; d<0 without union only for disjoint pairs",
                                        P.size(), pair_bases(T).size()), P, 2);
+        if (T) run_groups("offset.pairs_winding", fmt("%zu groups = %zu pairs x 3 non-identity winding assignments of the two members", W.size(), P.size()), W, 2, 0);
     }
     return run.finish();
 }
